@@ -2,7 +2,7 @@
    Model: Model/Sources.v (tied to fill.rs by Run/C07.v on every recorded vertex, bit-exact for the
    attribute arithmetic and for remap_t_in_range).  Statements only; proofs in Proofs/C07_Sources.v. *)
 From Coq Require Import QArith.
-From LV Require Import Base.Prelude Model.Bezier Model.Sources Proofs.C07_Sources.
+From LV Require Import Base.Prelude Model.Bezier Model.Sources Proofs.C07_Sources Gen.Functions Proofs.Gen_Geom.
 Open Scope Q_scope.
 
 (* --- the parameter-range algebra of the sweep --- *)
@@ -96,6 +96,14 @@ Example C07_attrs_affine_example :
   exists a, interp (fun x => x) ss = Some a /\ Forall2 Qeq a [3].
 Proof. exact attrs_affine_example. Qed.
 
+(* fill.rs's remap_t_in_range, translated from the source text on every run (tools/rs2coq.py), IS the model's (exact
+   arithmetic); with C07_remap_affine: the source function is the affine map in both branches *)
+Theorem C07_remap_is_source : forall v s e, src_remap_t_in_range v s e = remap_t_in_range v s e.
+Proof. exact src_remap_t_in_range_is_model. Qed.
+
+Theorem C07_src_remap_affine : forall v s e, src_remap_t_in_range v s e == s + v * (e - s).
+Proof. intros v s e. rewrite src_remap_t_in_range_is_model. exact (C07_remap_affine v s e). Qed.
+
 Print Assumptions C07_remap_affine.
 Print Assumptions C07_cut_sound.
 Print Assumptions C07_cuts_sound.
@@ -111,3 +119,5 @@ Print Assumptions C07_lerp_attr_exact.
 Print Assumptions C07_interp_is_average.
 Print Assumptions C07_attrs_affine.
 Print Assumptions C07_src_sound_spec.
+Print Assumptions C07_remap_is_source.
+Print Assumptions C07_src_remap_affine.
